@@ -6,8 +6,16 @@ set -u
 ID=$1; MODE=${2:-core}; S=/verif/seeded/$ID
 W=$(mktemp -d /var/tmp/ps-seed-XXXXXX); git -C /repo worktree add -q --detach "$W" HEAD || exit 2
 trap 'git -C /repo worktree remove --force "$W" 2>/dev/null; rm -rf "$W"' EXIT
-builddemo() { if [ "$MODE" = fitter ]; then g++ -std=c++11 -w -I$W/include -I/usr/include/suitesparse -DPHOTOSPLINE_INCLUDES_SPGLAM $S/demo.cpp $W/src/core/*.cpp $([ -f $S/demo.cinter ] && echo $W/src/cinter/splinetable.cpp) -x c $W/src/fitter/*.c -x none -lcfitsio -lspqr -lcholmod -lm -lpthread -o $W/demo_bin; else g++ -std=c++11 -w -I$W/include -I/usr/include/suitesparse $S/demo.cpp $W/src/core/*.cpp $([ -f $S/demo.cinter ] && echo $W/src/cinter/splinetable.cpp) -lcfitsio -lm -lpthread -o $W/demo_bin; fi; }
-rundemo() { (cd $W && mkdir -p demo && timeout 600 ./demo_bin $(cat $S/demo.args 2>/dev/null) >/dev/null 2>&1); echo $?; }
+builddemo() {
+  local extra=""; [ -f $S/demo.cinter ] && extra="$W/src/cinter/splinetable.cpp"
+  if [ "$MODE" = fitter ] || [ "$MODE" = tsan ]; then
+    local san=""; [ "$MODE" = tsan ] && san="-fsanitize=thread -g"
+    mkdir -p $W/obj; for f in $W/src/fitter/*.c; do gcc -std=gnu99 -O1 $san -w -I$W/include -I/usr/include/suitesparse -c $f -o $W/obj/$(basename $f .c).o || return 1; done
+    g++ -std=c++11 -O1 $san -w -I$W/include -I$W/src/fitter -I/usr/include/suitesparse -DPHOTOSPLINE_INCLUDES_SPGLAM $S/demo.cpp $W/src/core/*.cpp $extra $W/obj/*.o -lcfitsio -lspqr -lcholmod -lm -lpthread -o $W/demo_bin
+  else
+    g++ -std=c++11 -w -I$W/include -I/usr/include/suitesparse $S/demo.cpp $W/src/core/*.cpp $extra -lcfitsio -lm -lpthread -o $W/demo_bin
+  fi; }
+rundemo() { (cd $W && mkdir -p demo && cp demo_bin demo/demo && timeout 600 ./demo/demo $(cat $S/demo.args 2>/dev/null) >/dev/null 2>&1); echo $?; }
 builddemo || { echo "demo does not build on the unchanged tree"; exit 2; }
 CLEAN=$(rundemo)
 git -C "$W" apply "$S/patch.diff" || { echo "PATCH-DOES-NOT-APPLY"; exit 2; }
